@@ -1,6 +1,7 @@
 package server
 
 import (
+	"context"
 	"net/netip"
 	"time"
 
@@ -231,6 +232,27 @@ func VH_c12_llgr() {
 	vAssert(len(loc) == 0 && p.adjRibIn.Count(fams) == 0, "LLGR_STALE routes survive the expiry of the long-lived timer")
 	vAssert(len(views[capable]) == 0, "an LLGR_STALE route stays advertised after the long-lived timer expired")
 	vAssert(!p.fsm.pConf.ReadOnly().GracefulRestart.State.PeerRestarting, "the peer is still reported as restarting after every long-lived timer expired")
+
+	// a second cycle behaves like the first: re-establish, announce, lose the session, let the
+	// restart timer expire - the route is kept as LLGR_STALE again
+	p.fsm.conn = newVConn(nil, true)
+	vTransition(s, p, bgp.BGP_FSM_ESTABLISHED, fsmOpenMsgNegotiated)
+	vRecv(s, p, vUpdate4(r4, false, []uint32{65001}, vAddr4(10, 0, 0, 2)), 5000)
+	vRecv(s, p, bgp.NewEndOfRib(bgp.RF_IPv4_UC), 5001)
+	vRecv(s, p, bgp.NewEndOfRib(bgp.RF_IPv6_UC), 5002)
+	drain()
+	vTransition(s, p, bgp.BGP_FSM_IDLE, fsmGracefulRestart)
+	vTransition(s, p, bgp.BGP_FSM_IDLE, fsmRestartTimerExpired)
+	drain()
+	kept4 = nil
+	for _, q := range s.globalRib.GetPathList(table.GLOBAL_RIB_NAME, 0, fams) {
+		if q.GetPrefix() == r4.String() {
+			kept4 = q
+		}
+	}
+	vAssert(kept4 != nil && kept4.IsLLGRStale(), "in a second restart cycle the route is not kept carrying LLGR_STALE")
+	_, plainHas = views[plain][r4.String()]
+	vAssert(!plainHas, "in a second restart cycle an LLGR_STALE route stays advertised to a peer without the capability")
 	vReach("end")
 }
 
@@ -292,4 +314,28 @@ func VH_c12_deferral() {
 		vReach("deferral_expired")
 	}
 	vAssert(!p2.fsm.pConf.ReadOnly().GracefulRestart.State.LocalRestarting, "the speaker is still marked as restarting towards a peer after the restart phase ended")
+}
+
+// C12 (restart timer): after a graceful loss the stale routes live for the restart time the PEER
+// advertised: established() arms the restart timer with it and idle() reports its expiry then.
+func VH_c12_restart_timer() {
+	f, h, _ := c07fsm(bgp.BGP_FSM_ESTABLISHED, nil, false) // the peer closes the connection at once
+	peerTime, localTime := uint16(vInt("peer_restart_time", 1, 2)), uint16(vInt("local_restart_time", 3, 4))
+	conf := f.pConf.ReadCopy()
+	conf.Timers.State.NegotiatedHoldTime, conf.Timers.State.KeepaliveInterval = 90, 30
+	conf.GracefulRestart.Config.Enabled, conf.GracefulRestart.Config.RestartTime = true, localTime
+	conf.GracefulRestart.State.Enabled, conf.GracefulRestart.State.PeerRestartTime = true, peerTime
+	f.pConf.Update(&conf)
+	f.familyMap.Store(map[bgp.Family]bgp.BGPAddPathMode{bgp.RF_IPv4_UC: bgp.BGP_ADD_PATH_NONE})
+	next, reason := h.established(context.Background())
+	vAssert(next == bgp.BGP_FSM_IDLE && reason.Type == fsmGracefulRestart, "a transport failure on a graceful-restart session is not a graceful loss")
+	// what handleFSMMessage records on the graceful PeerDown
+	conf = f.pConf.ReadCopy()
+	conf.GracefulRestart.State.PeerRestarting = true
+	f.pConf.Update(&conf)
+	f.idleHoldTime = 3600
+	next, reason = h.idle(context.Background())
+	vAssert(next == bgp.BGP_FSM_IDLE && reason.Type == fsmRestartTimerExpired, "the restart timer does not end the restart window")
+	vAssert(vElapsedSec() == uint64(peerTime), "the restart window does not last the restart time the peer advertised")
+	vReach("end")
 }
